@@ -61,7 +61,7 @@ func run(c Case) (res vh.Result) {
 	n := atomic.AddInt64(&caseSeq, 1)
 	wf := fmt.Sprintf("wf%dx%d", os.Getpid(), n)
 	var sb strings.Builder
-	fmt.Fprintf(&sb, "name: %s\ndefaults:\n  deploy_timeout: 3s\nroles:\n", wf)
+	fmt.Fprintf(&sb, "name: %s\ndefaults:\n  deploy_timeout: 6s\nroles:\n", wf)
 	hosts := []string{"hosta", "hostb", "hostc"}
 	for i := 0; i < c.NTasks; i++ {
 		cls := fmt.Sprintf("k%dx%dt%d", os.Getpid(), n, i)
@@ -400,18 +400,18 @@ func gen(t *rapid.T) Case {
 
 func TestHistories(t *testing.T) {
 	defer simworld.Discard()
-	vh.Check(t, prop, gen, run)
+	vh.Check(t, prop, gen, vh.Confirmed(run))
 }
 
 func ctl(op string) Req { return Req{Kind: "control", Op: op} }
 
 func TestFixed(t *testing.T) {
 	defer simworld.Discard()
-	vh.Fixed(t, prop, "legal-walk", Case{NTasks: 2, Batches: []Batch{{[]Req{ctl("START_ACTIVITY")}}, {[]Req{ctl("STOP_ACTIVITY")}}, {[]Req{ctl("RESET")}}, {[]Req{ctl("CONFIGURE")}}}}, run)
-	vh.Fixed(t, prop, "illegal-reset-while-running", Case{NTasks: 1, Batches: []Batch{{[]Req{ctl("START_ACTIVITY")}}, {[]Req{ctl("RESET")}}}}, run)
-	vh.Fixed(t, prop, "two-starts-race", Case{NTasks: 1, Batches: []Batch{{[]Req{ctl("START_ACTIVITY"), ctl("START_ACTIVITY")}}}}, run)
-	vh.Fixed(t, prop, "start-then-stop-race", Case{NTasks: 2, Batches: []Batch{{[]Req{ctl("START_ACTIVITY"), ctl("STOP_ACTIVITY"), ctl("RESET")}}}}, run)
-	vh.Fixed(t, prop, "two-destroys-race", Case{NTasks: 1, Batches: []Batch{{[]Req{ctl("RESET")}}, {[]Req{ctl("CONFIGURE"), {Kind: "destroy"}, {Kind: "destroy"}}}}}, run)
-	vh.Fixed(t, prop, "failed-start", Case{NTasks: 2, Batches: []Batch{{[]Req{ctl("START_ACTIVITY")}}, {[]Req{ctl("STOP_ACTIVITY")}}}, Outcomes: []string{"taskfail"}}, run)
-	vh.Fixed(t, prop, "hook-fails-then-requests", Case{NTasks: 1, Batches: []Batch{{[]Req{ctl("START_ACTIVITY")}}, {[]Req{ctl("START_ACTIVITY")}}, {[]Req{ctl("GO_ERROR")}}}, Outcomes: []string{"hookfail"}}, run)
+	vh.Fixed(t, prop, "legal-walk", Case{NTasks: 2, Batches: []Batch{{[]Req{ctl("START_ACTIVITY")}}, {[]Req{ctl("STOP_ACTIVITY")}}, {[]Req{ctl("RESET")}}, {[]Req{ctl("CONFIGURE")}}}}, vh.Confirmed(run))
+	vh.Fixed(t, prop, "illegal-reset-while-running", Case{NTasks: 1, Batches: []Batch{{[]Req{ctl("START_ACTIVITY")}}, {[]Req{ctl("RESET")}}}}, vh.Confirmed(run))
+	vh.Fixed(t, prop, "two-starts-race", Case{NTasks: 1, Batches: []Batch{{[]Req{ctl("START_ACTIVITY"), ctl("START_ACTIVITY")}}}}, vh.Confirmed(run))
+	vh.Fixed(t, prop, "start-then-stop-race", Case{NTasks: 2, Batches: []Batch{{[]Req{ctl("START_ACTIVITY"), ctl("STOP_ACTIVITY"), ctl("RESET")}}}}, vh.Confirmed(run))
+	vh.Fixed(t, prop, "two-destroys-race", Case{NTasks: 1, Batches: []Batch{{[]Req{ctl("RESET")}}, {[]Req{ctl("CONFIGURE"), {Kind: "destroy"}, {Kind: "destroy"}}}}}, vh.Confirmed(run))
+	vh.Fixed(t, prop, "failed-start", Case{NTasks: 2, Batches: []Batch{{[]Req{ctl("START_ACTIVITY")}}, {[]Req{ctl("STOP_ACTIVITY")}}}, Outcomes: []string{"taskfail"}}, vh.Confirmed(run))
+	vh.Fixed(t, prop, "hook-fails-then-requests", Case{NTasks: 1, Batches: []Batch{{[]Req{ctl("START_ACTIVITY")}}, {[]Req{ctl("START_ACTIVITY")}}, {[]Req{ctl("GO_ERROR")}}}, Outcomes: []string{"hookfail"}}, vh.Confirmed(run))
 }
